@@ -14,7 +14,8 @@ from vt.ref import tlv
 
 FIELDS = ["sleeptime", "jitter", "useragent", "pairs", "submit", "verb_get", "verb_post", "get_prog", "post_prog", "recover", "spawnto_x86", "spawnto_x64",
           "perms_i", "perms", "minalloc", "tx86", "tx64", "exec", "allocator", "dns_beacon", "dns_get_a", "dns_get_txt", "dns_put_output", "dns_idle",
-          "dns_sleep", "maxdns", "cleanup", "sleep_mask", "data_store_size", "gate", "data_required"]
+          "dns_sleep", "maxdns", "cleanup", "sleep_mask", "data_store_size", "gate", "data_required",
+          "tcp_frame", "smb_frame", "dns_get_aaaa", "dns_put_metadata", "bof_reuse", "bof_allocator", "passive"]
 
 
 def block_from_cfg(cfg, pubkey=b"\x30\x81" + bytes(range(1, 100)), reverse=False):
@@ -78,6 +79,20 @@ def block_from_cfg(cfg, pubkey=b"\x30\x81" + bytes(range(1, 100)), reverse=False
         s.append(tlv.short(77, g("data_required")))
     if g("gate") is not None:
         s.append(tlv.setting(78, 3, bytes(g("gate"))))
+    for f, idx in (("smb_frame", 57), ("tcp_frame", 58)):
+        if g(f) is not None:
+            s.append(tlv.ptr(idx, tlv.pivot_frame(B(g(f))), 128))
+    for f, idx in (("dns_get_aaaa", 62), ("dns_put_metadata", 64)):
+        if g(f) is not None:
+            s.append(tlv.ptr(idx, B(g(f)), 33))
+    if g("bof_reuse") is not None:
+        s.append(tlv.short(48, g("bof_reuse")))
+    if g("bof_allocator") is not None:
+        s.append(tlv.short(16, g("bof_allocator")))
+    if g("passive") is not None:
+        # settings the generator reads without producing statements
+        s += [tlv.integer(4, 1048576), tlv.ptr(14, b"\x01" * 16, 16), tlv.short(28, 1), tlv.short(39, 0), tlv.ptr(54, b"Host: front.example", 128), tlv.short(50, 1), tlv.short(35, 2),
+              tlv.short(55, 1), tlv.integer(40, 20301231), tlv.ptr(53, b"\x02" * 16, 16), tlv.ptr(66, b"8.8.8.8", 16)]
     if reverse:
         s = s[::-1]
     return tlv.block([tlv.short(1, 0), tlv.short(2, 80)] + s)
@@ -156,9 +171,13 @@ def one(args):
     d = core.guarded(rp[1].as_dict, seconds=60)
     if d[0] != "ok":
         return {"kind": "undecodable_text", "got": str(d)[:200], "text": text[:500]}
-    toks = pu.tokenize(text)
+    # the DNS resolver is not a profile option; the generator states it as a comment inside dns-beacon, which counts as content
+    resolver = re.findall(r'#\s*dns_resolver\s+"([^"\n]*)";', text)
+    toks = pu.tokenize(re.sub(r'#\s*dns_resolver\s+"[^"\n]*";', 'set dns_resolver_comment "x";', text))
     if any(a == "{" and b == "}" for a, b in zip(toks, toks[1:])):
         return {"kind": "empty_block", "text": text[:500]}
+    if resolver != (["8.8.8.8"] if cfg.get("passive") else []):
+        return {"kind": "unfaithful", "problems": [("wrong_value", "dns-beacon.# dns_resolver", str(resolver), "8.8.8.8" if cfg.get("passive") else "absent")], "text": text[:700]}
     dd = {k: v for k, v in d[1].items() if not k.startswith("dns-beacon.#")}
     probs = compare_entries(dd, entries)
     # keys the generator may add although the property does not list them are tolerated only if the configuration has the setting
@@ -223,6 +242,13 @@ def rand_cfg(rng):
     c["cleanup"] = opt(0.3, lambda: rng.choice([0, 1]))
     c["sleep_mask"] = opt(0.3, lambda: rng.choice([0, 1]))
     c["data_store_size"] = opt(0.3, lambda: rng.randrange(0, 64))
+    c["tcp_frame"] = opt(0.3, lambda: raw(10))
+    c["smb_frame"] = opt(0.3, lambda: raw(10))
+    c["dns_get_aaaa"] = opt(0.3, lambda: L(b"6."))
+    c["dns_put_metadata"] = opt(0.3, lambda: L(b"m."))
+    c["bof_reuse"] = opt(0.3, lambda: rng.choice([0, 1]))
+    c["bof_allocator"] = opt(0.3, lambda: rng.choice([0, 1, 2]))
+    c["passive"] = opt(0.3, lambda: 1)
     def gate():
         # vectors at and next to the group boundaries (all on, all but one, one group only) as well as random ones
         v = [1] * 23
